@@ -251,7 +251,31 @@ func (i *interpreter) errOrNil(err error) value {
 }
 
 func (i *interpreter) concatV(a, b value) value {
+	if x, ok := a.(string); ok {
+		if y, ok := b.(string); ok {
+			return x + y
+		}
+	}
 	return i.mkStr(i.L.concat(i.strOf(a), i.strOf(b)))
+}
+
+// concreteBytes returns the Go string of a fully concrete []byte value.
+func concreteBytes(v value) (string, bool) {
+	switch x := v.(type) {
+	case nil:
+		return "", true
+	case []value:
+		b := make([]byte, len(x))
+		for k, e := range x {
+			c, ok := e.(uint8)
+			if !ok {
+				return "", false
+			}
+			b[k] = c
+		}
+		return string(b), true
+	}
+	return "", false
 }
 
 func (i *interpreter) runeIn(r value, set string) value {
@@ -569,6 +593,31 @@ func boxAppend(i *interpreter, recv value, field int, s *Str) {
 	boxSet(i, recv, field, i.L.concat(boxContent(i, recv, field), s))
 }
 
+// boxAppendV appends a string value; concrete content stays a Go string.
+func boxAppendV(i *interpreter, recv value, field int, s value) {
+	p := recv.(*value)
+	if p == nil {
+		panic(runtimeError("invalid memory address or nil pointer dereference"))
+	}
+	st := (*p).(structure)
+	if add, ok := s.(string); ok {
+		switch cur := st[field].(type) {
+		case string:
+			st[field] = cur + add
+			return
+		case nil:
+			st[field] = add
+			return
+		case []value:
+			if len(cur) == 0 {
+				st[field] = add
+				return
+			}
+		}
+	}
+	boxAppend(i, recv, field, i.strOf(s))
+}
+
 func (i *interpreter) runeStr(r value) *Str {
 	if c, ok := r.(int32); ok {
 		return i.L.lit(string(rune(c)))
@@ -586,7 +635,7 @@ func (i *interpreter) byteStr(b value) *Str {
 const builderField, bufferField = 1, 0
 
 func inBuilderWriteString(fr *frame, a []value) value {
-	boxAppend(fr.i, a[0], builderField, fr.i.strOf(a[1]))
+	boxAppendV(fr.i, a[0], builderField, a[1])
 	return tuple{lenOf(fr.i, a[1]), iface{}}
 }
 func inBuilderWriteByte(fr *frame, a []value) value {
@@ -598,10 +647,17 @@ func inBuilderWriteRune(fr *frame, a []value) value {
 	return tuple{1, iface{}}
 }
 func inBuilderWrite(fr *frame, a []value) value {
+	if c, ok := concreteBytes(a[1]); ok {
+		boxAppendV(fr.i, a[0], builderField, c)
+		return tuple{len(c), iface{}}
+	}
 	boxAppend(fr.i, a[0], builderField, fr.i.bytesToStr(a[1]))
 	return tuple{lenOf(fr.i, a[1]), iface{}}
 }
 func inBuilderString(fr *frame, a []value) value {
+	if c, ok := (*a[0].(*value)).(structure)[builderField].(string); ok {
+		return c
+	}
 	return fr.i.mkStr(boxContent(fr.i, a[0], builderField))
 }
 func inBuilderLen(fr *frame, a []value) value {
@@ -613,7 +669,7 @@ func inBuilderReset(fr *frame, a []value) value {
 }
 
 func inBufferWriteString(fr *frame, a []value) value {
-	boxAppend(fr.i, a[0], bufferField, fr.i.strOf(a[1]))
+	boxAppendV(fr.i, a[0], bufferField, a[1])
 	return tuple{lenOf(fr.i, a[1]), iface{}}
 }
 func inBufferWriteByte(fr *frame, a []value) value {
@@ -625,12 +681,19 @@ func inBufferWriteRune(fr *frame, a []value) value {
 	return tuple{1, iface{}}
 }
 func inBufferWrite(fr *frame, a []value) value {
+	if c, ok := concreteBytes(a[1]); ok {
+		boxAppendV(fr.i, a[0], bufferField, c)
+		return tuple{len(c), iface{}}
+	}
 	boxAppend(fr.i, a[0], bufferField, fr.i.bytesToStr(a[1]))
 	return tuple{lenOf(fr.i, a[1]), iface{}}
 }
 func inBufferString(fr *frame, a []value) value {
 	if a[0].(*value) == nil {
 		return "<nil>"
+	}
+	if c, ok := (*a[0].(*value)).(structure)[bufferField].(string); ok {
+		return c
 	}
 	return fr.i.mkStr(boxContent(fr.i, a[0], bufferField))
 }
@@ -680,10 +743,10 @@ func (i *interpreter) writeTo(fr *frame, w iface, s value) (value, iface) {
 	}
 	switch w.t.String() {
 	case "*strings.Builder":
-		boxAppend(i, w.v, builderField, i.strOf(s))
+		boxAppendV(i, w.v, builderField, s)
 		return lenOf(i, s), iface{}
 	case "*bytes.Buffer":
-		boxAppend(i, w.v, bufferField, i.strOf(s))
+		boxAppendV(i, w.v, bufferField, s)
 		return lenOf(i, s), iface{}
 	}
 	var b value
